@@ -672,17 +672,31 @@ def rule_N2(ctx):
                     c.func.value.id == "self":
                 todo.append(c.func.attr)
     res.facts["composer_uses"] = sorted(used)
+    MAPPING = ("self.items()", "self.keys()", "self.values()", "self", "self.iteritems()",
+               "self.spec", "self.spec.items()", "self.spec.keys()")
+
+    def _iterates_mapping(m_):
+        return any(isinstance(x, (ast.For, ast.comprehension)) and unparse(x.iter) in MAPPING
+                   for x in ast.walk(m_.node))
+    # private helpers that walk the mapping (an index built once, say) hand declaration order
+    # on to their callers: the callers are judged, not the helper
+    ordered_helpers = set()
+    for n in sorted(seen):
+        m = prog.lookup_method(tms, n)
+        if m is not None and m.cls is tms and n.startswith("_") and not n.startswith("__") \
+                and n not in used and _iterates_mapping(m):
+            ordered_helpers.add(n)
     for n in sorted(seen):
         m = prog.lookup_method(tms, n)
         if m is None or m.cls is not tms:
             continue
-        iterates = False
-        for x in ast.walk(m.node):
-            if isinstance(x, (ast.For, ast.comprehension)):
-                it = unparse(x.iter)
-                if it in ("self.items()", "self.keys()", "self.values()", "self", "self.iteritems()",
-                          "self.spec", "self.spec.items()", "self.spec.keys()"):
-                    iterates = True
+        if n in ordered_helpers:
+            res.holds(("TaskMappingSpec." + n,), "private helper: judged where its result is used")
+            continue
+        iterates = _iterates_mapping(m) or any(
+            isinstance(c.func, ast.Attribute) and isinstance(c.func.value, ast.Name)
+            and c.func.value.id == "self" and c.func.attr in ordered_helpers
+            for c in calls_in(m.node))
         inst = ("TaskMappingSpec." + n,)
         if not iterates:
             res.holds(inst, "does not iterate the task mapping")
